@@ -5,3 +5,4 @@ import Gomjml.Props.C09
 #print axioms Gomjml.Props.C09.C09_raw_partial
 #print axioms Gomjml.Props.C09.C09_sites
 #print axioms Gomjml.Props.C09.C09_written_reads
+#print axioms Gomjml.Props.C09.C09_no_read_past_resolvers
